@@ -141,8 +141,21 @@ class SymInterp:
             return Poly.sym(sym)
         if isinstance(e, ast.Subscript):
             v = self.ev(e.value, p)
-            if isinstance(v, tuple) and isinstance(e.slice, ast.Constant) and isinstance(e.slice.value, int):
+            if isinstance(v, (tuple, list)) and isinstance(e.slice, ast.Constant) and isinstance(e.slice.value, int):
                 return v[e.slice.value]
+            if isinstance(v, (tuple, list)) and isinstance(e.slice, ast.UnaryOp) and isinstance(e.slice.op, ast.USub) \
+                    and isinstance(e.slice.operand, ast.Constant) and isinstance(e.slice.operand.value, int):
+                return v[-e.slice.operand.value]
+            if isinstance(v, (tuple, list)) and isinstance(e.slice, ast.Slice):
+                def c(x):
+                    if x is None:
+                        return None
+                    if isinstance(x, ast.Constant) and isinstance(x.value, int):
+                        return x.value
+                    if isinstance(x, ast.UnaryOp) and isinstance(x.op, ast.USub) and isinstance(x.operand, ast.Constant):
+                        return -x.operand.value
+                    raise Undecided("slice bound %s" % unparse(x))
+                return type(v)(v[slice(c(e.slice.lower), c(e.slice.upper), c(e.slice.step))])
         raise Undecided("expression %s" % unparse(e))
 
     def divmod(self, a: Poly, n: Poly, p: Path):
@@ -309,6 +322,22 @@ class SymInterp:
             done.append(p)
             return []
         if isinstance(st, ast.If):
+            t = st.test
+            # De Morgan / short-circuit desugaring: conjunctions and disjunctions become nested tests
+            if isinstance(t, ast.UnaryOp) and isinstance(t.op, ast.Not) and isinstance(t.operand, ast.BoolOp):
+                inner = t.operand
+                flipped = ast.BoolOp(op=ast.Or() if isinstance(inner.op, ast.And) else ast.And(),
+                                     values=[ast.UnaryOp(op=ast.Not(), operand=v) for v in inner.values])
+                return self.stmt(ast.If(test=flipped, body=st.body, orelse=st.orelse), p, done)
+            if isinstance(t, ast.BoolOp) and len(t.values) >= 2:
+                first, rest = t.values[0], (t.values[1] if len(t.values) == 2 else ast.BoolOp(op=t.op, values=t.values[1:]))
+                if isinstance(t.op, ast.And):
+                    nested = ast.If(test=first, body=[ast.If(test=rest, body=st.body, orelse=st.orelse)], orelse=st.orelse)
+                else:
+                    nested = ast.If(test=first, body=st.body, orelse=[ast.If(test=rest, body=st.body, orelse=st.orelse)])
+                return self.stmt(nested, p, done)
+            if not st.body and not st.orelse:
+                return [p]
             c = self.cond(st.test, p)
             if c is True:
                 return self.block(st.body, [p], done)
